@@ -125,6 +125,9 @@ func newWorld(seed uint64) *world {
 			if p.Learner {
 				mp.Role = metapb.PeerRole_Learner
 			}
+			if !p.Learner && rng.Intn(6) == 0 {
+				mp.Role = []metapb.PeerRole{metapb.PeerRole_IncomingVoter, metapb.PeerRole_DemotingVoter}[rng.Intn(2)]
+			}
 			if p.ID == tmp.Leader {
 				leader = mp
 			}
@@ -157,8 +160,12 @@ func visibleCase(origin string, stores []*core.StoreInfo, region *core.RegionInf
 			c.Peers = append(c.Peers, PeerSpec{ID: p.GetId(), Store: p.GetStoreId()})
 		case metapb.PeerRole_Learner:
 			c.Peers = append(c.Peers, PeerSpec{ID: p.GetId(), Store: p.GetStoreId(), Learner: true})
+		case metapb.PeerRole_IncomingVoter:
+			c.Peers = append(c.Peers, PeerSpec{ID: p.GetId(), Store: p.GetStoreId(), Role: "incoming"})
+		case metapb.PeerRole_DemotingVoter:
+			c.Peers = append(c.Peers, PeerSpec{ID: p.GetId(), Store: p.GetStoreId(), Role: "demoting"})
 		default:
-			return nil, nil // joint-consensus roles are not generated
+			return nil, nil
 		}
 	}
 	c.Leader = region.GetLeader().GetId()
@@ -362,7 +369,30 @@ func (w *world) evolveRegion(ri int) {
 	r := w.regions[ri]
 	peers := r.GetPeers()
 	var nr *core.RegionInfo
-	switch w.rng.Intn(5) {
+	switch w.rng.Intn(7) {
+	case 5: // enter a joint state: a voter (possibly the leader) starts demoting, or a learner is incoming
+		p := peers[w.rng.Intn(len(peers))]
+		role := metapb.PeerRole_DemotingVoter
+		if p.GetRole() == metapb.PeerRole_Learner {
+			role = metapb.PeerRole_IncomingVoter
+		} else if p.GetRole() != metapb.PeerRole_Voter {
+			break
+		}
+		nr = r.Clone(withPeerRole(p.GetId(), role), core.WithIncConfVer())
+		w.step("region %d: Clone(peer %d role -> %s)", r.GetID(), p.GetId(), role)
+	case 6: // leave the joint state: incoming -> voter, demoting -> learner (never the leader)
+		for _, p := range peers {
+			if p.GetRole() == metapb.PeerRole_IncomingVoter {
+				nr = r.Clone(withPeerRole(p.GetId(), metapb.PeerRole_Voter), core.WithIncConfVer())
+				w.step("region %d: Clone(peer %d role -> Voter)", r.GetID(), p.GetId())
+				break
+			}
+			if p.GetRole() == metapb.PeerRole_DemotingVoter && p.GetId() != r.GetLeader().GetId() {
+				nr = r.Clone(withPeerRole(p.GetId(), metapb.PeerRole_Learner), core.WithIncConfVer())
+				w.step("region %d: Clone(peer %d role -> Learner)", r.GetID(), p.GetId())
+				break
+			}
+		}
 	case 0:
 		if len(peers) < maxN {
 			if dst := w.freeStore(r); dst != 0 {
@@ -412,6 +442,17 @@ func (w *world) evolveRegion(ri int) {
 	}
 	if nr != nil {
 		w.regions[ri] = nr
+	}
+}
+
+// withPeerRole rewrites one peer's raft role in the cloned region (Clone deep-copies the meta).
+func withPeerRole(peerID uint64, role metapb.PeerRole) core.RegionCreateOption {
+	return func(region *core.RegionInfo) {
+		for _, p := range region.GetPeers() {
+			if p.GetId() == peerID {
+				p.Role = role
+			}
+		}
 	}
 }
 
